@@ -218,6 +218,21 @@ namespace PConn
 
 abbrev Id := List UInt8
 
+/-- What an EXECUTE / a BATCH entry carries for one prepared statement, as the scripted server observes it, and
+    what a PREPARE answer hands out: the prepared id TOGETHER WITH the bind metadata, seen as the byte widths
+    of the bound values (`sig`: the widths the answer's column types prescribe / the widths of the values in the
+    frame, i.e. the metadata the driver encoded them with). In the code both travel in one `*preparedStatment`
+    (`info.id`, `info.request.columns[i].TypeInfo`), so the machines below treat the pair as ONE opaque `Id`;
+    the driver (Driver/C14.lean) builds the token from the two fields of the `P` / `X` events. One length byte,
+    the id, the widths: injective for ids shorter than 256 bytes (a CQL [short bytes] id of the scripted
+    server is 3..12 bytes) - `C14_token_injective`. -/
+def token (id sig : List UInt8) : Id := UInt8.ofNat id.length :: (id ++ sig)
+
+/-- the two fields of a token (for printing) -/
+def untoken : Id → List UInt8 × List UInt8
+  | [] => ([], [])
+  | n :: r => (r.take n.toNat, r.drop n.toNat)
+
 /-- the server's answer to a PREPARE: `none` = ERROR frame, `some (id, ncols)` = RESULT/Prepared with
     that id and that many bind columns -/
 abbrev PAns := Option (Id × Nat)
